@@ -51,6 +51,8 @@ type Program struct {
 	Chaos      bool
 	Routines   []Routine
 	Repeat     int
+	// SlowMicros delays the underlying agent's answers to sign and unknown (forwarded) requests.
+	SlowMicros int
 }
 
 // own keys: goroutine g uses ownKeys[(2g+k) % len] — disjoint for up to 8 goroutines x 2 keys; beyond that
@@ -65,6 +67,7 @@ func gen(t *rapid.T) Program {
 		Expired:    rapid.IntRange(0, 3).Draw(t, "expired"),
 		YSSHCA:     rapid.IntRange(0, 3).Draw(t, "ysshca"),
 		Chaos:      rapid.IntRange(0, 3).Draw(t, "chaos") == 0,
+		SlowMicros: rapid.SampledFrom([]int{0, 0, 200, 1000, 3000}).Draw(t, "slowMicros"),
 	}
 	ng := rapid.SampledFrom([]int{2, 2, 3, 4, 4, 6, 8, 12, 16}).Draw(t, "goroutines")
 	for g := 0; g < ng; g++ {
@@ -77,7 +80,7 @@ func gen(t *rapid.T) Program {
 		if g < 8 {
 			nk := rapid.IntRange(0, 2).Draw(t, l+"NK")
 			for k := 0; k < nk; k++ {
-				full := []string{"add", "addhard", "signown", "removehard", "remove"}
+				full := []string{"add", "addhard", "signown", "signhard", "signhard", "removehard", "remove"}
 				var seq []string
 				for _, s := range full {
 					if s == "add" || rapid.Bool().Draw(t, fmt.Sprintf("%sK%d%s", l, k, s)) {
@@ -175,6 +178,15 @@ func runOnce(prog Program, rep int) (err error, readPurge bool) {
 	defer p.Close()
 	ring := p.Ring()
 	_ = ring.Add(agent.AddedKey{PrivateKey: vh.Key(sharedKey), Comment: "shared"})
+	if prog.SlowMicros > 0 {
+		d := time.Duration(prog.SlowMicros) * time.Microsecond
+		p.Latency = func(code int) time.Duration {
+			if code == vh.CodeSign || code == 200 || code == vh.CodeExtension {
+				return d
+			}
+			return 0
+		}
+	}
 	expKeys := []string{"rsa1024a", "rsa1024b", "p256a"}
 	ysKeys := []string{"ed25519a", "rsa2048c", "rsa2048d"}
 	for i := 0; i < prog.Expired; i++ {
@@ -273,15 +285,23 @@ func runOnce(prog Program, rep int) (err error, readPurge bool) {
 						} else if exact {
 							viol.set(vh.Errf("%s failed: %v", where, e))
 						}
-					case "signshared", "signown":
+					case "signshared", "signown", "signhard":
 						keyName := sharedKey
 						expectOK := true
+						var signWith ssh.PublicKey = vh.SSHPub(sharedKey)
 						if op.Kind == "signown" {
 							keyName = own
+							signWith = vh.SSHPub(own)
 							expectOK = finals[g].keyPresent[op.Key]
 						}
+						if op.Kind == "signhard" {
+							// the in-memory hardware certificate: the shim redirects to the plain key
+							keyName = own
+							signWith = certFor(own, "hard")
+							expectOK = finals[g].keyPresent[op.Key] && finals[g].hardPresent[op.Key]
+						}
 						var sig *ssh.Signature
-						sig, e = ag.Sign(vh.SSHPub(keyName), tag)
+						sig, e = ag.Sign(signWith, tag)
 						if e == nil {
 							successfulRead.Store("x", true)
 							if verr := vh.SSHPub(keyName).Verify(tag, sig); verr != nil {
@@ -465,7 +485,7 @@ func exec(prog Program) (vh.Outcome, error) {
 		}
 		for _, op := range r.Ops {
 			switch op.Kind {
-			case "add", "addhard", "remove", "removehard", "removeall", "lock", "unlock", "signers", "list", "signshared", "signown":
+			case "add", "addhard", "remove", "removehard", "removeall", "lock", "unlock", "signers", "list", "signshared", "signown", "signhard":
 				mutating++ // list / signers / sign purge and fill the cache: they write shared state too
 			}
 		}
@@ -489,7 +509,7 @@ func exec(prog Program) (vh.Outcome, error) {
 	return out, nil
 }
 
-const rule = "concurrent programs: 2..16 goroutines x 1..8 operations, each goroutine calling one shim agent directly or through its own client connection served by yubiagent.ServeAgent, both upstream modes, with 0..3 expired certificates (purged inside the race window) and 0..3 YSSHCA certificates preloaded. Read-type operations (list, signers, sign with a shared key, extension, raw forward) are free; mutations follow per-goroutine life cycles of the goroutine's own keys (add, add-hardware-certificate, sign, remove hardware certificate, remove key), so that the final state is the same for every sequential order; a quarter of the programs add a chaos goroutine (remove-all, lock, unlock), for which only reply matching, completion and containment are checked. Every request carries a unique tag (data to sign, extension payload, forward body); Gosched perturbation is drawn per operation; each program is repeated (quick 3, thorough 10). Oracles: race detector (halt_on_error), no fatal runtime error, signatures verify over the caller's own data, extension / forward replies echo the caller's tag, own-key operations succeed or fail as in the goroutine's own order, all operations complete within 60 s, final keyring and final listing equal the order-independent expectation, nothing nobody added appears. Non-trivial: >= 2 goroutines with at least one operation writing shared state."
+const rule = "concurrent programs: 2..16 goroutines x 1..8 operations, each goroutine calling one shim agent directly or through its own client connection served by yubiagent.ServeAgent, both upstream modes, with 0..3 expired certificates (purged inside the race window) and 0..3 YSSHCA certificates preloaded. Read-type operations (list, signers, sign with a shared key, extension, raw forward) are free; mutations follow per-goroutine life cycles of the goroutine's own keys (add, add-hardware-certificate, sign with the key, sign with the in-memory hardware certificate, remove hardware certificate, remove key); the underlying agent answers sign / forwarded / extension requests with a drawn latency of 0..3 ms so that overlapping requests really overlap, so that the final state is the same for every sequential order; a quarter of the programs add a chaos goroutine (remove-all, lock, unlock), for which only reply matching, completion and containment are checked. Every request carries a unique tag (data to sign, extension payload, forward body); Gosched perturbation is drawn per operation; each program is repeated (quick 3, thorough 10). Oracles: race detector (halt_on_error), no fatal runtime error, signatures verify over the caller's own data, extension / forward replies echo the caller's tag, own-key operations succeed or fail as in the goroutine's own order, all operations complete within 60 s, final keyring and final listing equal the order-independent expectation, nothing nobody added appears. Non-trivial: >= 2 goroutines with at least one operation writing shared state."
 
 func TestC11Concurrent(t *testing.T) {
 	vh.Run(t, vh.Spec[Program]{Property: "C11", Name: "TestC11Concurrent", Rule: rule, Gen: gen, Exec: exec, Journal: true})
@@ -514,7 +534,21 @@ func TestC11SignersStorm(t *testing.T) {
 			cases = append(cases, Program{NoUpstream: noUp, Expired: 3, YSSHCA: 3, Routines: rs, Repeat: 5})
 		}
 	}
+	// hardware-certificate signatures overlapping raw forwards and extensions, with a slow underlying agent
+	for _, noUp := range []bool{true, false} {
+		for _, ng := range []int{4, 8} {
+			var rs []Routine
+			for g := 0; g < ng; g++ {
+				if g%2 == 0 {
+					rs = append(rs, Routine{Via: []string{"direct", "conn"}[g/2%2], Ops: []GOp{{Kind: "add"}, {Kind: "addhard"}, {Kind: "signhard"}, {Kind: "signhard", Spin: 1}, {Kind: "signhard"}, {Kind: "signown"}, {Kind: "signhard"}}})
+				} else {
+					rs = append(rs, Routine{Via: "direct", Ops: []GOp{{Kind: "forward"}, {Kind: "extension"}, {Kind: "forward", Spin: 2}, {Kind: "forward"}, {Kind: "extension"}, {Kind: "forward"}, {Kind: "forward"}, {Kind: "forward"}}})
+				}
+			}
+			cases = append(cases, Program{NoUpstream: noUp, YSSHCA: 1, Routines: rs, Repeat: 4, SlowMicros: 2000})
+		}
+	}
 	vh.Enumerate(t, vh.Spec[Program]{Property: "C11", Name: "TestC11SignersStorm", Journal: true,
-		Rule: "fixed storms: 2 / 4 / 8 / 16 goroutines alternating signers, extension, raw forward and list calls (direct and through connections), both upstream modes, 3 expired and 3 YSSHCA certificates preloaded, 5 repetitions each; same oracles",
+		Rule: "fixed storms: 2 / 4 / 8 / 16 goroutines alternating signers, extension, raw forward and list calls (direct and through connections), both upstream modes, 3 expired and 3 YSSHCA certificates preloaded, 5 repetitions each; plus 4 / 8 goroutines where half sign repeatedly with their in-memory hardware certificate while the others issue raw forwards and extensions against an underlying agent that answers after 2 ms; same oracles",
 		Exec: exec}, cases)
 }
